@@ -59,6 +59,7 @@ void run_case(uint64_t idx, Rng& r) {
   const std::string fam = FAM_NAME[cell.fam];
   const uint64_t n = cell.n;
   const uint64_t base = r.next();
+  seed_order(r);
   describe("mc family=" + fam + " lg_k=" + std::to_string(cell.lg_k) + " n=" + std::to_string(n) + " (" + std::to_string(MULTS[cell.mi].num) + "/" +
            std::to_string(MULTS[cell.mi].den) + " k) trials=" + std::to_string(cell.trials) + " keybase=" + std::to_string(base));
   std::vector<Trial> tr; tr.reserve(cell.trials);
@@ -96,6 +97,7 @@ void run_case(uint64_t idx, Rng& r) {
         if (t & 1) u.update(b.compact()); else u.update(b);
         const compact_theta_sketch res = u.get_result();
         tr.push_back(observe(res, n, fam, ctx));
+        { const compact_theta_sketch res2 = u.get_result(); VF_CHECK(same_chain(read_chain(res2), tr.back().c), fam + "|get_result|second-result-differs-from-first", ctx); }
         break;
       }
       case F_TUPLE_UNION: {
@@ -108,6 +110,7 @@ void run_case(uint64_t idx, Rng& r) {
         if (t & 1) u.update(b.compact()); else u.update(b);
         const auto res = u.get_result();
         tr.push_back(observe(res, n, fam, ctx));
+        { const auto res2 = u.get_result(); VF_CHECK(same_chain(read_chain(res2), tr.back().c), fam + "|get_result|second-result-differs-from-first", ctx); }
         break;
       }
       default: break;
